@@ -644,3 +644,144 @@ Definition long_dup_refused : bool :=
    at the same time; then, after everything ended, the pending flag and whether the id is admitted again *)
 Definition long_ok (first_live dup_admitted : bool) (maxlive : nat) (pend_after reuse : bool) : bool :=
   negb (first_live && dup_admitted) && Nat.leb maxlive 1 && negb pend_after && reuse.
+
+(* ------------------------------------------------------------------------------------------ *)
+(* Part 9.  A session with a BATCH of processes: Coordinator.Execute(ctx, [p0; ..; p(np-1)], ...), as
+   the bitcoin executor passes one signing process per transaction input.  Three loops of
+   tss/coordinator.go range over the processes of the batch and create one closure / make one call
+   per process:
+        initiate / waitForStart:   for _, process := range tssProcesses {
+                                       tssProcess := process                    // per-iteration copy
+                                       p.Go(func(ctx) error { return tssProcess.Run(...) }) }
+        Execute, deferred cleanup: for _, process := range tssProcesses { process.Stop() }
+        Execute, refusal:          for _, process := range tssProcesses { process.Stop() }
+   The module's language version is go 1.21: a range variable is ONE variable for the whole loop.
+   [PerIteration] = what the code does (every closure / call has the process of its own iteration);
+   [SharedVariable] = a closure that captures the range variable itself and is executed after the loop
+   has moved on - in the worst case all of them see the last process.                              *)
+Inductive capture := PerIteration | SharedVariable.
+
+Definition captured (c : capture) (procs : list nat) : list nat :=
+  match c with
+  | PerIteration => procs
+  | SharedVariable => repeat (last procs 0) (length procs)
+  end.
+
+(* the processes the np tasks / calls of one loop over the batch act on *)
+Definition loop_targets (c : capture) (np : nat) : list nat := captured c (seq 0 np).
+
+(* how many rounds of Run the session makes: a retried session (the first process is Retryable and a
+   process of the first round failed with a SubsetError: handleError waits for another start message)
+   launches the whole batch a second time *)
+Definition batch_rounds (r : role) (o : outcome) (ph : phase) (retry : bool) : nat :=
+  if retry then 2 else if runs r o ph then 1 else 0.
+
+Definition launch_evs (cl : capture) (np : nat) : list ev := map ERun (loop_targets cl np).
+
+Definition bstart_trace (cl : capture) (r : role) (run : bool) (np : nat) : list ev :=
+  match r with
+  | Coord => [ESub MReady] ++ (if run then launch_evs cl np else []) ++ [EUnsub MReady]
+  | Peer  => [ESub MInitiate; ESub MStart] ++ (if run then launch_evs cl np else [])
+             ++ [EUnsub MStart; EUnsub MInitiate]
+  end.
+
+(* handleError after a SubsetError: watchExecution again, waitForStart for anybody's start message *)
+Definition retry_trace (cl : capture) (np : nat) : list ev :=
+  [ESub MFail; ESub MInitiate; ESub MStart] ++ launch_evs cl np
+  ++ [EUnsub MStart; EUnsub MInitiate; EUnsub MFail].
+
+(* cl: the launching loops, cs: the Stop loop of the cleanup *)
+Definition batch_trace (cl cs : capture) (r : role) (o : outcome) (ph : phase) (retry : bool) (np : nat)
+    : list ev :=
+  [EPend true]
+  ++ [ESub MFail] ++ bstart_trace cl r (retry || runs r o ph) np ++ [EUnsub MFail]
+  ++ (if retry then retry_trace cl np else [])
+  ++ [EClose; EPend false] ++ map EStop (loop_targets cs np).
+
+(* all tasks of a round are in the pool together: the Runs inside process object p at the same time
+   are the tasks of one round that act on p *)
+Definition batch_maxsim (cl : capture) (r : role) (o : outcome) (ph : phase) (retry : bool) (np : nat)
+    : list nat :=
+  map (fun p => Nat.min 1 (batch_rounds r o ph retry) * count_occ Nat.eq_dec (loop_targets cl np) p)
+      (seq 0 np).
+
+Definition batch_ret (r : role) (o : outcome) (ph : phase) (retry : bool) : ret :=
+  if retry then RNil else session_ret r o ph.
+
+(* THE JUDGE of a batch session: [cleanup_ok] per process of the batch - subscriptions released,
+   CloseSession once, EVERY process stopped exactly once, pending flag false - where a session that is
+   not retried runs every process at most once ([once]; a retried session runs them again, one round
+   after the other), and no process object ever has two Runs inside it at the same time. *)
+Definition batch_ok (once : bool) (np : nat) (l : list ev) (maxsim : list nat) : bool :=
+  forallb (fun m => Nat.eqb (count_ev (is_sub m) l) (count_ev (is_unsub m) l)) all_msgs
+  && (Nat.eqb (count_ev is_close l) 1 || (Nat.eqb (count_ev is_close l) 0 && silent_session np l))
+  && forallb (fun p => Nat.eqb (count_ev (is_stop p) l) 1
+                       && (negb once || Nat.leb (count_ev (is_run p) l) 1)) (seq 0 np)
+  && match last_pend l with Some false => true | _ => false end
+  && Nat.eqb (length maxsim) np && forallb (fun k => Nat.leb k 1) maxsim.
+
+(* a second request for the ids of a live batch session: refused, none of its processes is run *)
+Definition dup_ok (dup : option (bool * (list nat * list nat))) : bool :=
+  match dup with
+  | None => true
+  | Some (refused, (druns, _)) => refused && forallb (Nat.eqb 0) druns
+  end.
+
+(* a batch that is refused because a session with its id is live: Execute stops every process of the
+   refused request (they are never run) *)
+Definition refused_stops (cs : capture) (np : nat) : list nat :=
+  map (fun p => count_occ Nat.eq_dec (loop_targets cs np) p) (seq 0 np).
+
+Definition refused_ok (refused : bool) (bruns bstops : list nat) : bool :=
+  refused && forallb (Nat.eqb 0) bruns && forallb (fun k => Nat.leb k 1) bstops.
+
+(* ------------------------------------------------------------------------------------------ *)
+(* Part 10.  A LONG history on one coordinator.  In the interleaving model of Part 1: thread t runs
+   its whole session - admission (four steps), the session ends (Fin), cleanup (three steps) - before
+   thread t+1 starts; after k such sessions (any session ids) a further request is made.  Admission
+   looks at pendingProcesses[sessionID] only: no count of the sessions seen, no size of the map.   *)
+Definition session_sched (t : nat) : list sev := repeat (Step t) 4 ++ [Fin t] ++ repeat (Step t) 3.
+
+Definition hist_sched (k : nat) : list sev := flat_map session_sched (seq 0 k).
+
+(* request t0 after k ended sessions: is it admitted (does it get as far as running its processes)? *)
+Definition probe_admitted (sid : nat -> nat) (k t0 : nat) : bool :=
+  pc_eqb (pcs (exec New sid (hist_sched k ++ repeat (Step t0) 4) (init New)) t0) PRun.
+
+(* what the model answers whatever the number of ended sessions (a binary number: thousands) - by
+   theorem C09_admission_independent_of_history this IS probe_admitted for every k *)
+Definition hist_admits (k : N) : bool := true.
+
+(* THE JUDGE of a history, on aggregated observations: of the k sessions (distinct ids, run one after
+   the other, each to its end) none was refused, each ran and stopped its processes as a lone session
+   does, nothing was left behind on the communication layer, every Execute returned; and every probe -
+   a new id or the id of an ended session - was admitted, ran its process once and stopped it once. *)
+Definition hist_ok (refused notrun stopbad leftover unclosed stuck : N)
+    (probes : list (bool * (bool * (nat * nat)))) : bool :=
+  N.eqb refused 0 && N.eqb notrun 0 && N.eqb stopbad 0 && N.eqb leftover 0 && N.eqb unclosed 0
+  && N.eqb stuck 0
+  && forallb (fun p => fst (snd p) && Nat.eqb (fst (snd (snd p))) 1 && Nat.eqb (snd (snd (snd p))) 1) probes.
+
+(* a capacity guard on the SIZE of the pending map (entries of ended sessions are kept, as false):
+   the map of the code, as an association list, and a guard that refuses at [cap] entries *)
+Definition pmap := list (nat * bool).
+
+Fixpoint pm_get (m : pmap) (s : nat) : bool :=
+  match m with
+  | [] => false
+  | (s', b) :: r => if Nat.eqb s' s then b else pm_get r s
+  end.
+
+Fixpoint pm_set (m : pmap) (s : nat) (b : bool) : pmap :=
+  match m with
+  | [] => [(s, b)]
+  | (s', b') :: r => if Nat.eqb s' s then (s', b) :: r else (s', b') :: pm_set r s b
+  end.
+
+(* one complete session on the guarded coordinator: admitted (then its entry is set and, at its end,
+   reset to false - the entry stays) unless the guard refuses it *)
+Definition guarded_admits (cap : nat) (m : pmap) (s : nat) : bool :=
+  negb (pm_get m s) && Nat.ltb (length m) cap.
+
+Definition guarded_session (cap : nat) (m : pmap) (s : nat) : pmap :=
+  if guarded_admits cap m s then pm_set (pm_set m s true) s false else m.
